@@ -139,6 +139,9 @@ def run(ctx: Ctx):
 
     from .sat_common import _need
 
+    ctx.step(_need, "C05-O4", "R18 table", pn, "linear propagator, one free variable: `!=` drops the one forbidden value (when it is a whole number), `==` keeps the values that solve the equation", ["if is_ne:\n    if const % k == 0:\n        domains[name].discard(-const // k)\nelse:\n    domains[name] = {v for v in domains[name] if k * v + const == 0}", "return bool(domains[name])"], "a value pruned by the wrong test is lost for every solution below this node")
+    ctx.step(_need, "C05-O4", "R18 table", pn, "linear propagator, two free variables (== only): each variable keeps the values for which the other has a matching one - every coefficient multiplies values of its own variable", ["n1, n2 = free", "k1, k2 = (coefs[n1], coefs[n2])", "targets2 = {k2 * v for v in domains[n2]}", "valid1 = {v for v in domains[n1] if -(k1 * v + const) in targets2}", "targets1 = {k1 * v for v in valid1}", "valid2 = {v for v in domains[n2] if -(k2 * v + const) in targets1}", "if not valid1 or not valid2:\n    return False", "domains[n1] = valid1\ndomains[n2] = valid2"], "with the other variable's coefficient the supports are computed for a different equation: values that do have a partner are pruned, and a satisfiable model is answered INFEASIBLE (or loses solutions) under the DFS back-end only")
+
     ctx.step(_need, "C05-O4", "R14 GATE", ctx.func("cp", "Model._propagate"), "propagation fails on an empty domain before and after every constraint pass (a variable with an empty range has no value even in a model without constraints)", ["if any((not d for d in domains.values())):\n        return False", "for n, d in domains.items():\n                if not d:\n                    return False"], "without the test in front a model whose only flaw is an empty range reaches the leaf, where the value of that variable is read from an empty set")
     ctx.step(_need, "C05-O13", "R14 GATE", ctx.func("cp", "Model.int_var"), "a variable name is used once per model (both back-ends look variables up by name)", ["if name in self._vars:\n        raise ValueError"], "a second variable of the same name replaces the first in the name table: constraints on the first are then evaluated against the second's domain and the back-ends disagree")
     ctx.step(_need, "C05-O13", "R14 GATE", ctx.func("cp", "Model.add"), "only constraint tuples are stored", ["if not isinstance(constraint, tuple):\n        raise TypeError", "self._constraints.append(constraint)"], "anything else (a comparison Python already evaluated to False) is skipped by both back-ends, so a model with an unsatisfiable 'constraint' is answered with a solution")
@@ -483,7 +486,12 @@ def _v_named_variable_recorded_as_unnamed(tree):
     M.replace_stmt(g, lambda s: M.src_is(s, "self._vars[name] = var"), M.stmts("self._vars[name] = var\nif name.startswith('_'):\n    self._unnamed.add(name)"))
 
 
+def _v_two_free_wrong_coefficient(tree):
+    g = M.find_func(tree, "Model._propagate_ne_expr")
+    M.replace_expr(g, lambda e: M.src_is(e, "{k2 * v for v in domains[n2]}"), M.expr("{k1 * v for v in domains[n2]}"))
+
 VARIANTS = [
+    M.Variant("two-free-variable pruning multiplies the second variable's values by the first coefficient (seed C05-Y)", CP, _v_two_free_wrong_coefficient, "C05-O4"),
     M.Variant("the DFS report drops every name that starts with an underscore, the caller's own included (original defect, ledger row 80)", CP, _v_report_filter_by_spelling, "C05-O13"),
     M.Variant("int_var records every underscore name as made up by the model", CP, _v_named_variable_recorded_as_unnamed, "C05-O13"),
     M.Variant("BinaryImplications.add drops a clause whose two literals share a variable: [-b, -b] from x != x vanishes (seed C05-U)", "solvor/sat.py", _v_binary_add_same_variable_guard, "C05-O14"),
